@@ -34,7 +34,7 @@ func (g *gen) lit(prefix string) Expr {
 }
 
 // constructs: each takes the nested content and returns nodes
-const nKinds = 13
+const nKinds = 14
 
 func (g *gen) build(kind int, inner []Node) []Node {
 	g.n++
@@ -80,6 +80,10 @@ func (g *gen) build(kind int, inner []Node) []Node {
 	case 11: // macro with parameters (a, b) called with ONE argument: the omitted b is empty inside, whatever b is outside
 		name := fmt.Sprintf("m%d", id)
 		return []Node{Macro{Name: name, Params: []Param{{Name: "a"}, {Name: "b"}}, Body: cat(p("p"), inner, p("p'"))}, O(Call{Name: name, Args: []Expr{g.lit("P")}})}
+	case 13: // ssi parsed: the file sees the bindings of the place it is written at, and what it sets stays inside
+		file := fmt.Sprintf("ssi%d", id)
+		g.files["/"+file] = cat(p("ssi"), []Node{Set{Name: "a", E: g.lit("ss")}, Set{Name: "b", E: g.lit("ss")}}, p("ssi'"))
+		return cat([]Node{Include{File: file, SSI: true}}, inner)
 	case 12: // for over nothing: the empty branch is part of the loop's scope, a set inside it must not leak
 		return []Node{For{Key: "a", Over: v("nothing"), Body: []Node{T("never")}, HasEmpty: true, Empty: cat(p("e"), []Node{Set{Name: "a", E: g.lit("es")}, Set{Name: "b", E: g.lit("es")}}, inner, p("e'"))}}
 	}
@@ -227,7 +231,7 @@ func init() {
 	eng.Register(&eng.Check{
 		ID:    "C12",
 		Title: "Scoping: bindings stay in their construct; caller data is never modified",
-		Rule: "bounded-exhaustive: every nesting up to depth 3 and every two-construct sequence over 13 binding constructs that bind the names a and b (colliding with caller context and globals), with probes {{ a }},{{ b }} before, inside and after every construct, each binding a unique literal so the output names the binding that is visible; compared with the reference environment model. " +
+		Rule: "bounded-exhaustive: every nesting up to depth 3 and every two-construct sequence over 14 binding constructs that bind the names a and b (colliding with caller context and globals), with probes {{ a }},{{ b }} before, inside and after every construct, each binding a unique literal so the output names the binding that is visible; compared with the reference environment model. " +
 			"In every program the caller's Context map and the set's Globals are deep-compared before/after execution. Every executed case is non-trivial; deduplicated by source.",
 		Assumptions: []string{
 			"reference environment of DESIGN.md Appendix A.5; macro bodies refer only to parameters and to names of their definition level and are called where they are defined",
